@@ -51,18 +51,21 @@ func (h Handle) Coq() string {
 
 // Opts describes sqlgen.SelectOptions (Values are int64).
 type Opts struct {
-	Where     string  `json:"where"`
-	Values    []int64 `json:"values"`
-	OrderBy   string  `json:"order_by"`
-	Limit     int     `json:"limit"`
-	ForUpdate bool    `json:"for_update"`
+	Where     string   `json:"where"`
+	Values    []int64  `json:"values"`
+	OrderBy   string   `json:"order_by"`
+	Limit     int      `json:"limit"`
+	ForUpdate bool     `json:"for_update"`
+	ForceIdx  []string `json:"force_index,omitempty"`
+	UseIdx    []string `json:"use_index,omitempty"`
 }
 
 func (o *Opts) Go() *sqlgen.SelectOptions {
 	if o == nil {
 		return nil
 	}
-	so := &sqlgen.SelectOptions{Where: o.Where, OrderBy: o.OrderBy, Limit: o.Limit, ForUpdate: o.ForUpdate}
+	so := &sqlgen.SelectOptions{Where: o.Where, OrderBy: o.OrderBy, Limit: o.Limit, ForUpdate: o.ForUpdate,
+		ForceIndex: append([]string{}, o.ForceIdx...), UseIndex: append([]string{}, o.UseIdx...)}
 	for _, v := range o.Values {
 		so.Values = append(so.Values, v)
 	}
@@ -77,7 +80,15 @@ func (o *Opts) Coq() string {
 	for i, v := range o.Values {
 		vs[i] = "(DInt " + vh.CoqZ(v) + ")"
 	}
-	return fmt.Sprintf("(Some (mk_opts %s %s %s %d %s))", vh.CoqString(o.Where), vh.CoqList(vs), vh.CoqString(o.OrderBy), o.Limit, vh.CoqBool(o.ForUpdate))
+	strs := func(xs []string) string {
+		ys := make([]string, len(xs))
+		for i, x := range xs {
+			ys[i] = vh.CoqString(x)
+		}
+		return vh.CoqList(ys)
+	}
+	return fmt.Sprintf("(Some (mk_opts %s %s %s %d %s %s %s))", vh.CoqString(o.Where), vh.CoqList(vs), vh.CoqString(o.OrderBy), o.Limit,
+		vh.CoqBool(o.ForUpdate), strs(o.ForceIdx), strs(o.UseIdx))
 }
 
 // Env is one fake server with the catalogue and a restricted sqlgen handle.
@@ -99,6 +110,16 @@ func NewEnv(h Handle, contents map[string][][]driver.Value) (*Env, error) {
 	}
 	e.conn = e.Srv.DB()
 	e.Base = sqlgen.NewDB(e.conn, NewSchema())
+	db, err := e.Restrict(h)
+	if err != nil {
+		return nil, err
+	}
+	e.DB = db
+	return e, nil
+}
+
+// Restrict derives a handle from the environment's base DB (all derived handles share its batch function).
+func (e *Env) Restrict(h Handle) (*sqlgen.DB, error) {
 	db := e.Base
 	var err error
 	if h.Shard != nil {
@@ -120,8 +141,7 @@ func NewEnv(h Handle, contents map[string][][]driver.Value) (*Env, error) {
 			return nil, err
 		}
 	}
-	e.DB = db
-	return e, nil
+	return db, nil
 }
 
 func (e *Env) Close() {
@@ -130,7 +150,7 @@ func (e *Env) Close() {
 }
 
 // Outcome classes (the model's [outcome]): 0 proceeds, 1 rejected by a limit check, 2 bad input; 3 panic
-// that is not Go's "comparing uncomparable" (never expected).
+// (never expected: "returns an error" is what the property asks of a call that does not comply).
 const (
 	Proceeds = 0
 	Rejected = 1
@@ -144,9 +164,6 @@ const (
 // is a rejection: the class does not depend on the wording of the limit-check messages.
 func Classify(err error, panicText string, stmtFailed bool) (class int, dbErr bool) {
 	if panicText != "" {
-		if strings.Contains(panicText, "comparing uncomparable") {
-			return Rejected, false
-		}
 		return Panicked, false
 	}
 	if err == nil {
@@ -222,6 +239,17 @@ type BatchResult struct {
 // of callers, long MaxDuration) so that all callers that reach it are normally combined into one
 // invocation; whatever happens is observed, not assumed.
 func RunBatched(db *sqlgen.DB, t *TableDesc, filters []sqlgen.Filter) *BatchResult {
+	dbs := make([]*sqlgen.DB, len(filters))
+	for i := range dbs {
+		dbs[i] = db
+	}
+	return RunBatchedOn(dbs, t, filters)
+}
+
+// RunBatchedOn is RunBatched with one handle per caller; the handles must derive from the same DB (they
+// share its batch function) and all callers use one batching context.
+func RunBatchedOn(dbs []*sqlgen.DB, t *TableDesc, filters []sqlgen.Filter) *BatchResult {
+	db := dbs[0]
 	n := len(filters)
 	res := &BatchResult{Errs: make([]error, n), Panics: make([]string, n), Rows: make([][]interface{}, n)}
 	bf := BatchFunc(db)
@@ -263,7 +291,7 @@ func RunBatched(db *sqlgen.DB, t *TableDesc, filters []sqlgen.Filter) *BatchResu
 		go func(i int) {
 			defer wg.Done()
 			out := t.NewResultSlice()
-			res.Errs[i], res.Panics[i] = Safely(func() error { return db.Query(ctx, out, filters[i], nil) })
+			res.Errs[i], res.Panics[i] = Safely(func() error { return dbs[i].Query(ctx, out, filters[i], nil) })
 			if res.Errs[i] == nil && res.Panics[i] == "" {
 				s := reflect.ValueOf(out).Elem()
 				for k := 0; k < s.Len(); k++ {
